@@ -152,7 +152,7 @@ fn small_list_op(rng: &mut Rng, tag: i64) -> Op {
             0 => Op::LastVia(*rng.pick(&["match", "arg"])),
             1 => if rng.chance(1, 2) { Op::TailVia } else { Op::InitVia },
             2 => Op::FirstVia("match"),
-            _ => Op::SnapVia(*rng.pick(&["copy", "deep_copy", "display", "debug", "concat", "slice"])),
+            _ => Op::SnapVia(*rng.pick(&["copy", "deep_copy", "display", "debug", "concat", "slice", "json", "yaml"])),
         },
         _ => Op::Snap,
     }
@@ -179,8 +179,8 @@ fn small_map_op(rng: &mut Rng, v: i64) -> Op {
         10 => Op::MIdx(rng.below(4)),
         11 => Op::MSort,
         12 => Op::MExtend(vec![(k, v), (rng.range(0, 4), v + 1)]),
-        13 => Op::MSnapVia(*rng.pick(&["copy", "deep_copy", "display", "debug"])),
-        14 => Op::MIsEmpty,
+        13 => Op::MSnapVia(*rng.pick(&["copy", "deep_copy", "display", "debug", "json", "yaml"])),
+        14 => if rng.chance(1, 2) { Op::MIsEmpty } else { Op::MSetAt(rng.below(4), k, v) },
         _ => if MAP_EQ_EXCLUDED.load(std::sync::atomic::Ordering::Relaxed) { Op::MSize } else { Op::MEqTo(vec![(0, 0), (1, 10)]) },
     }
 }
